@@ -195,6 +195,8 @@ func TestVerif_C05_Progress(t *testing.T) {
 		}
 		startEvents := s.stats.events
 		verdict := ""
+		livePos := map[int][3]uint64{}
+		liveCnt := map[int]int{}
 		maxPeriodSeen := p0
 		for verdict == "" {
 			// termination / violation checks
@@ -255,6 +257,19 @@ func TestVerif_C05_Progress(t *testing.T) {
 			}
 			// 3. timeouts exactly at their deadlines
 			for _, n := range s.nodes {
+				if n.canTimeout(false) {
+					// livelock detector: every step timeout either casts the step's vote or moves to the next step
+					// (player.go:112-140), so a node takes at most a few step timeouts per (round, period, step)
+					pos := [3]uint64{uint64(n.player.Round), uint64(n.player.Period), uint64(n.player.Step)}
+					if livePos[n.id] == pos {
+						liveCnt[n.id]++
+					} else {
+						livePos[n.id], liveCnt[n.id] = pos, 1
+					}
+					if liveCnt[n.id] > 20 {
+						s.failf("C05: livelock after the synchrony point: node %d took %d step timeouts in a row at (round %d, period %d, step %d) without advancing its step — it will never reach a later step or period", n.id, liveCnt[n.id], n.player.Round, n.player.Period, n.player.Step)
+					}
+				}
 				if n.canTimeout(false) && n.fireTimeout(false, sc.entropy()) {
 					progressed = true
 					break
